@@ -253,7 +253,10 @@ class Engine:
             t = parse_block(fn, bbn)['term']
             if self._term_key(t) == key:
                 ordinal += 1
-        return ('%s/%s#%d' % (short_fn(fn.name), key if key else kind, ordinal)).replace(' ', '_')
+        nm = short_fn(fn.name)
+        if getattr(fn, 'recv', None) and 'stdlib.rs' in nm:
+            nm = nm.replace('<impl@', '<impl:%s@' % fn.recv, 1)
+        return ('%s/%s#%d' % (nm, key if key else kind, ordinal)).replace(' ', '_')
 
     @staticmethod
     def _term_key(term):
@@ -841,7 +844,7 @@ class Engine:
             return Agg('tracing::Level', {0: Agg('LevelInner', {}, ['TRACE', 'DEBUG', 'INFO', 'WARN', 'ERROR'].index(m.group(1)), {}, vs)})
         body = self.db.const_body(t, st.frames[-1].fn if st.frames else None) if hasattr(self.db, 'const_body') else None
         if body is not None and len(st.frames) < self.call_depth + 4:
-            key = body.name
+            key = (body.name, body.start_line)
             if key in self._const_cache:
                 kind, val = self._const_cache[key]
                 if kind == 'val':
@@ -858,6 +861,11 @@ class Engine:
                 return r
         # enum-like constants printed bare (e.g. `InvalidInput`) and everything else
         ls = last_seg(t)
+        if dest_ty:
+            en = last_seg(generic_args(dest_ty.strip())[0])
+            if en in self.si.enums and ls in self.si.enums[en] and re.match(r'^[A-Za-z_][A-Za-z0-9_:]*$', t):
+                vs = self.si.enums[en]
+                return Agg(en, {}, vs.index(ls), {}, vs)
         for en, vs in self.si.enums.items():
             if ls in vs and (('::' + en + '::') in ('::' + strip_generics(t)) or strip_generics(t).startswith(en + '::')):
                 return Agg(en, {}, vs.index(ls), {}, vs)
